@@ -532,7 +532,12 @@ func c11BufCases() []c11BufCase {
 	return out
 }
 
-func c11BufOne(c *fw.Ctx, cs c11BufCase) {
+func c11BufOne(c *fw.Ctx, cs c11BufCase) { c11BufOneP(c, cs, "C11") }
+
+// c11BufOneP: the same cases under C03 ("any transport chunking" includes the
+// chunk that carried the handshake request).
+func c11BufOneP(c *fw.Ctx, cs c11BufCase, prop string) {
+	pc := func(class string) string { return prop + strings.TrimPrefix(class, "C11") }
 	c.Eval()
 	c.AddTraces(1)
 	var st *c11Stream
@@ -587,13 +592,13 @@ func c11BufOne(c *fw.Ctx, cs c11BufCase) {
 	var conn *websocket.Conn
 	var err error
 	if p := fw.Recover(func() { conn, err = websocket.Accept(w, r, nil) }); p != "" {
-		c.Violate("C11/panic", fmt.Sprintf("%+v: Accept panicked: %s", cs, p), cs)
+		c.Violate(pc("C11/panic"), fmt.Sprintf("%+v: Accept panicked: %s", cs, p), cs)
 		c11Finish(w, conn)
 		return
 	}
 	defer c11Finish(w, conn)
 	if conn == nil {
-		c.Violate("C11/refused-valid-request", fmt.Sprintf("%+v: valid request refused with pre-buffered client bytes: status %d err=%v", cs, w.status, err), cs)
+		c.Violate(pc("C11/refused-valid-request"), fmt.Sprintf("%+v: valid request refused with pre-buffered client bytes: status %d err=%v", cs, w.status, err), cs)
 		return
 	}
 	c.AddTransitions(1)
@@ -605,7 +610,7 @@ func c11BufOne(c *fw.Ctx, cs c11BufCase) {
 		var rerr error
 		p := fw.Recover(func() { typ, got, rerr = conn.Read(ctx) })
 		if p != "" {
-			c.Violate("C11/panic", fmt.Sprintf("%+v: Read panicked: %s", cs, p), cs)
+			c.Violate(pc("C11/panic"), fmt.Sprintf("%+v: Read panicked: %s", cs, p), cs)
 			return
 		}
 		if rerr != nil && (ctx.Err() != nil || errors.Is(rerr, context.DeadlineExceeded)) {
@@ -618,7 +623,7 @@ func c11BufOne(c *fw.Ctx, cs c11BufCase) {
 			wantTyp = websocket.MessageBinary
 		}
 		if rerr != nil || typ != wantTyp || string(got) != want.Payload {
-			c.Violate("C11/buffered-bytes-lost", fmt.Sprintf("%+v: message %d read after Accept = (%v, %q, err=%v), want (%v, %q): the %d byte(s) of client frames that were already buffered in the hijacked reader were not (correctly) seen", cs, i, typ, got, rerr, wantTyp, want.Payload, cs.K), cs)
+			c.Violate(pc("C11/buffered-bytes-lost"), fmt.Sprintf("%+v: message %d read after Accept = (%v, %q, err=%v), want (%v, %q): the %d byte(s) of client frames that were already buffered in the hijacked reader were not (correctly) seen", cs, i, typ, got, rerr, wantTyp, want.Payload, cs.K), cs)
 			return
 		}
 		c.AddTransitions(1)
@@ -626,7 +631,9 @@ func c11BufOne(c *fw.Ctx, cs c11BufCase) {
 	c.OutcomeStr(fmt.Sprintf("buffered %s k=%d delivered", cs.Stream, cs.K))
 }
 
-func c11BufRun(c *fw.Ctx, shard, nshards int) {
+func c11BufRun(c *fw.Ctx, shard, nshards int) { c11BufRunP(c, shard, nshards, "C11") }
+
+func c11BufRunP(c *fw.Ctx, shard, nshards int, prop string) {
 	cases := c11BufCases()
 	kinds := map[string]struct{}{}
 	for i, cs := range cases {
@@ -640,7 +647,7 @@ func c11BufRun(c *fw.Ctx, shard, nshards int) {
 			c.NotExhaustive("time budget reached in buffered-bytes enumeration")
 			break
 		}
-		c11BufOne(c, cs)
+		c11BufOneP(c, cs, prop)
 		if c.WantSample() && i%97 == 11 {
 			c.Sample(cs)
 		}
@@ -667,6 +674,20 @@ func init() {
 				return
 			}
 			c11One(c, cs)
+		},
+	})
+	fw.Register(fw.Part{
+		Prop: "C03", Name: "accepted",
+		Units: func(tier string) []fw.Unit {
+			return fw.Shards("splits", 2, func(c *fw.Ctx, shard, n int) { c11BufRunP(c, shard, n, "C03") })
+		},
+		Replay: func(c *fw.Ctx, data json.RawMessage) {
+			var cs c11BufCase
+			if json.Unmarshal(data, &cs) != nil {
+				c.EngineError("bad replay data")
+				return
+			}
+			c11BufOneP(c, cs, "C03")
 		},
 	})
 	fw.Register(fw.Part{
